@@ -124,7 +124,7 @@ def quantum_shannon_decomposition(
             atol=atol,
         )
         global_phase = _global_phase_difference(
-            two_qubit_gates[idx].matrix, [ops.MatrixGate(diagonal)(q0, q1), *operations]
+            two_qubit_gates[idx].matrix, [ops.MatrixGate(diagonal)(q0, q1), *operations], (q0, q1)
         )
         if not np.isclose(global_phase, 0, atol=atol):
             operations.append(ops.global_phase_operation(np.exp(1j * global_phase)))
@@ -141,7 +141,7 @@ def quantum_shannon_decomposition(
             clean_operations=True,
             atol=atol,
         )
-        global_phase = _global_phase_difference(two_qubit_gates[0].matrix, operations)
+        global_phase = _global_phase_difference(two_qubit_gates[0].matrix, operations, (q0, q1))
         if not np.isclose(global_phase, 0, atol=atol):
             operations.append(ops.global_phase_operation(np.exp(1j * global_phase)))
         shannon_decomp[two_qubit_gates[0].location] = operations
@@ -217,12 +217,16 @@ def _recursive_decomposition(qubits: Sequence[cirq.Qid], u: np.ndarray) -> Itera
     yield from _msb_demuxer(qubits, u1, u2)
 
 
-def _global_phase_difference(u: np.ndarray, ops: list[cirq.Operation]) -> float:
+def _global_phase_difference(
+    u: np.ndarray, ops: list[cirq.Operation], qubits: Sequence[cirq.Qid]
+) -> float:
     """Returns the difference in global phase between unitary u and
-    a list of operations computing u.
+    a list of operations computing u on the given qubits (in that order).
     """
     i, j = np.unravel_index(np.argmax(np.abs(u)), u.shape)
-    new_unitary = unitary_protocol.unitary(FrozenCircuit.from_moments(*ops))
+    new_unitary = FrozenCircuit.from_moments(*ops).unitary(
+        qubit_order=qubits, qubits_that_should_be_present=qubits
+    )
     return np.angle(u[i, j]) - np.angle(new_unitary[i, j])
 
 
